@@ -258,9 +258,18 @@ CHECK_DEADLOCK FALSE
 
 
 def has_dup_binding(d):
+    """two declared dependencies that need the same (u, v) graph edge: two parameters of one node bound to the same
+    source (plain / recurrent / the same named switch), or two labels of one switch that select the same case node"""
     for x in d['decls']:
-        srcs = [m['node'] for m in x['marks'] if m['kind'] in ('input', 'rec')]
-        if len(srcs) != len(set(srcs)):
+        pairs = []
+        for m in x['marks']:
+            if m['kind'] in ('input', 'rec'):
+                pairs.append((m['node'], x['id']))
+            elif m['kind'] == 'switch':
+                pairs.append((m['name'], x['id']))
+                pairs += [(c, m['name'], lab) for lab, c in m['cases']]
+        plain = [p[:2] for p in pairs]
+        if len(set(pairs)) != len(set(plain)) or len([p for p in pairs if len(p) == 2]) != len({p for p in pairs if len(p) == 2}):
             return True
     return False
 
@@ -342,6 +351,9 @@ def builder_decl_sets(tier, seed):
                                    N('W2', SW('q1', 'S', [('l1', 'X'), ('l2', 'Y')], name='shared')),
                                    N('O', I('p1', 'W1'), I('p2', 'W2'), SW('p3', 'S', [('l1', 'X'), ('l2', 'Y')], name='shared'))],
           'A', 'O'),
+        # two labels of one switch select the same case node (one (case, switch) edge can carry one label: finding D10)
+        P('switch_two_labels_one_case', [N('A'), N('S', I('p1', 'A')), N('X', I('p1', 'A')), N('Y', I('p1', 'A')),
+                                         N('O', SW('p1', 'S', [('l1', 'X'), ('l2', 'X'), ('l3', 'Y')], name='tl'))], 'A', 'O'),
         # nodes that implement the node interface directly (no node_type; ids node__<name>)
         P('plainbase_nodes', [N('A'), N('F', plainbase=True), N('B', I('p1', 'A'), plainbase=True),
                               N('O', I('p1', 'B'), I('p2', 'F'))], 'A', 'O'),
